@@ -291,3 +291,6 @@ Proof.
   apply find_last_some in Hb as (e & -> & He & Hn & Hg).
   destruct (le_lt_dec d e); [lia|]. rewrite (Hl e) in Hn by lia. discriminate.
 Qed.
+
+Lemma key_runes_map fold s : key fold s = map fold (runes s).
+Proof. unfold key, runes. rewrite map_map. reflexivity. Qed.
